@@ -2,15 +2,12 @@ package router
 
 import "github.com/gammazero/nexus/v3/wamp"
 
+// pptOptionsToDetails copies the payload passthru options that are strings
+// into details. Options of any other type are not forwarded.
 func pptOptionsToDetails(options wamp.Dict, details wamp.Dict) {
-	details[wamp.OptPPTScheme] = options[wamp.OptPPTScheme].(string)
-	if val, ok := options[wamp.OptPPTSerializer]; ok {
-		details[wamp.OptPPTSerializer] = val.(string)
-	}
-	if val, ok := options[wamp.OptPPTCipher]; ok {
-		details[wamp.OptPPTCipher] = val.(string)
-	}
-	if val, ok := options[wamp.OptPPTKeyId]; ok {
-		details[wamp.OptPPTKeyId] = val.(string)
+	for _, opt := range []string{wamp.OptPPTScheme, wamp.OptPPTSerializer, wamp.OptPPTCipher, wamp.OptPPTKeyId} {
+		if val, ok := options[opt].(string); ok {
+			details[opt] = val
+		}
 	}
 }
